@@ -325,6 +325,16 @@ func c08OrderFnv(c *core.Ctx) {
 	}
 }
 
+// c08EvalBoth evaluates the constructor expressions in both hash modes (for properties that repeat the obligation).
+func c08EvalBoth(c *core.Ctx) {
+	for _, advers := range []bool{false, true} {
+		k := newC08Kit(c, rC08Eval, advers)
+		if k.ok {
+			c08Eval(c, k, map[bool]string{false: "fnv", true: "colliding-hash"}[advers])
+		}
+	}
+}
+
 // c08Equality evaluates Equals / Hash / String over the universe in one hash mode; withRest adds the obligations
 // that share the kit (supply order, atoms, constructor expressions).
 func c08Equality(c *core.Ctx, advers, withRest bool) bool {
